@@ -137,6 +137,12 @@ func c20Prog(r *Rng, idx int) *Prog {
 		p.Root.ArgComp = append(p.Root.ArgComp, c.Name)
 	}
 	p.Root.ArgCompFn = []string{"zeta", "dyn"}
+	// a wrapper (UnsetOptions) between ordinary sibling commands: what the siblings inherit must not depend on the order in
+	// which the library happens to visit the commands of a level
+	if idx%3 == 1 && len(p.Root.Cmds) >= 3 {
+		w := p.Root.Cmds[1+r.Intn(len(p.Root.Cmds)-1)]
+		w.Unset = true
+	}
 	return p
 }
 
@@ -171,6 +177,12 @@ func init() {
 			// (b2) help <topic> for every command (names share prefixes: c, co, cmd, clone ...)
 			for _, c := range cmds {
 				add("help-topic", &DriverReq{Prog: p, Kind: "parse", Argv: []string{"help", c}, Dispatch: true})
+			}
+			// (b3) the help flag and an inherited root option behind every command (siblings of a wrapper included)
+			for i, c := range cmds {
+				if i < 4 {
+					add("help-flag@command", &DriverReq{Prog: p, Kind: "parse", Argv: []string{c, "--help"}, Dispatch: true})
+				}
 			}
 			// (c) several unknown options
 			add("unknown-options", &DriverReq{Prog: p, Kind: "parse", Argv: []string{"--zzb", "--zza=1", "-zc", "pos", "--zzd"}, Dispatch: true})
